@@ -98,6 +98,20 @@ int main() {}
         obs.append(Ob(id='C06.static.identity-from-%s' % R1, prop='C06', group='C06.static', prelude='', wrappers=[], inputs=[], body=src, kind='S',
                       contract='static fact: Quantity<Meters, R2> is implicitly constructible from Quantity<Meters, %s> for every integral and floating R2 (k = 1 between integral reps)' % G.ctype(R1),
                       functions_under_contract=('au::ConstructionPolicy::PermitImplicitFrom (compile-time)', 'au::detail::PermitAsCarveOutForIntegerPromotion')))
+    # totality at the edges of the magnitude / rep space: ratios above the range of double, and bool as a rep (the question must be answerable, never a hard error)
+    TH = ('#include <type_traits>\n#include "au/au.hh"\n#include "au/units/meters.hh"\nusing namespace au;\n#define VF_STATIC_FACT(c) static_assert(c, "VF_STATIC_FACT")\n'
+          'struct VBig : decltype(Meters{} * pow<400>(mag<10>())) {};\nstruct VTiny : decltype(Meters{} / pow<400>(mag<10>())) {};\nstruct VKilo : decltype(Meters{} * mag<1000>()) {};\n'
+          'VF_STATIC_FACT((!std::is_convertible<Quantity<VBig, int>, Quantity<Meters, int>>::value));\n'
+          'VF_STATIC_FACT((!std::is_convertible<Quantity<VBig, int64_t>, Quantity<Meters, uint64_t>>::value));\n'
+          'VF_STATIC_FACT((!std::is_convertible<Quantity<VTiny, int>, Quantity<Meters, int>>::value));\n'
+          'VF_STATIC_FACT((std::is_convertible<Quantity<VTiny, int>, Quantity<Meters, long double>>::value));\n'
+          'VF_STATIC_FACT((!std::is_convertible<Quantity<VKilo, int>, Quantity<Meters, bool>>::value));\n'
+          'VF_STATIC_FACT((!std::is_convertible<Quantity<VKilo, uint8_t>, Quantity<Meters, bool>>::value));\n'
+          'VF_STATIC_FACT((std::is_convertible<Quantity<Meters, bool>, Quantity<Meters, int>>::value));\n'
+          'VF_STATIC_FACT((std::is_convertible<Quantity<VKilo, bool>, Quantity<Meters, int>>::value));\nint main() {}\n')
+    obs.append(Ob(id='C06.static.totality-edges', prop='C06', group='C06.static', prelude='', wrappers=[], inputs=[], body=TH, kind='S',
+                  contract='static facts: the implicit-constructibility question is ANSWERED (never a hard error) for unit ratios of 10^400 and 10^-400 and for bool as source or target rep, '
+                           'with the documented answers', functions_under_contract=('au::ConstructionPolicy::PermitImplicitFrom (compile-time)', 'au::can_scale_without_overflow')))
     w = Wrapper('w_threshold', 'int32_t', [], 'return au::detail::OVERFLOW_THRESHOLD;')
     obs.append(Ob(id='C06.threshold-constant', prop='C06', group='C06.canscale', prelude='#include "au/units/meters.hh"', wrappers=[w], inputs=[],
                   body='\n  CHECK(%s() == 2147, "overflow-threshold-is-2147");\n' % w.name, contract='au::detail::OVERFLOW_THRESHOLD == 2147',
